@@ -83,4 +83,68 @@ theorem validateAll_addr (M : Nat) :
         · simp only [hs, if_false]
       | err e => rfl
       | fault f => rfl
+
+theorem sstruct_addr (ds : List Dict) (hl : ∀ d ∈ ds, Law d) (hd : ∀ d ∈ ds, AddrIndep d) : AddrIndep (sstructD ds) := by
+  intro a a' bs h
+  simp only [sstructD] at h ⊢
+  exact ⟨validateAll_addr (alignL ds) ds hd (alignL_mod ds hl) 0 a a' bs h, trivial⟩
+
+theorem cenum_addr (tag : LenTy) (n : Nat) : AddrIndep (cenumD tag n) := by
+  intro a a' bs h
+  simp only [cenumD] at h ⊢
+  rw [readU_addr tag a a' bs h]
+  exact ⟨rfl, trivial⟩
+
+theorem senum_addr (tag : LenTy) (ht : tag.Law) (vs : List (List Dict)) (hl : ∀ v ∈ vs, ∀ d ∈ v, Law d)
+    (hd : ∀ v ∈ vs, ∀ d ∈ v, AddrIndep d) : AddrIndep (senumD tag vs) := by
+  intro a a' bs h
+  simp only [senumD] at h ⊢
+  have hpll := alignLL_pow2 vs hl
+  rw [readU_addr tag a a' bs (mod_congr_of_dvd h (Pow2.max_mod_left ht.align_pow2 hpll))]
+  refine ⟨?_, trivial⟩
+  cases hr : tag.readU ⟨a', bs⟩ with
+  | ok t =>
+    simp only [Res.bind_eq, Res.bind_ok, Slice.dropU, Slice.len, Slice.drop]
+    by_cases hlt : t < vs.length
+    · simp only [hlt, if_true]
+      by_cases hdo : ceilMul tag.size (max tag.align (alignLL vs)) ≤ bs.length
+      · simp only [hdo, if_true, Res.bind_ok]
+        have hmem := getD_mem vs t [] hlt
+        rw [validateAll_addr (alignLL vs) (vs.getD t []) (hd _ hmem) (fun d hdm => alignLL_mod vs hl _ hmem d hdm) 0 _ _ _
+          (mod_congr_add (mod_congr_of_dvd h (Pow2.max_mod_right ht.align_pow2 hpll)) _)]
+      · simp only [hdo, if_false, Res.bind_fault]
+    · simp only [hlt, if_false]
+  | err e => rfl
+  | fault f => rfl
+
+theorem vecElems_addr (d : Dict) (hd : AddrIndep d) (dOff : Nat) (a a' : Nat) (bs : Bytes)
+    (h : a % d.align = a' % d.align) : ∀ k i, vecElems d dOff ⟨a, bs⟩ k i = vecElems d dOff ⟨a', bs⟩ k i := by
+  intro k
+  induction k with
+  | zero => intro i; simp [vecElems]
+  | succ k ih =>
+    intro i
+    simp only [vecElems, Res.bind_eq, Slice.dropU, Slice.len, Slice.takeU, Slice.drop, Slice.take]
+    by_cases h1 : dOff + i * d.ssize ≤ bs.length
+    · simp only [h1, if_true, Res.bind_ok]
+      by_cases h2 : d.ssize ≤ (List.drop (dOff + i * d.ssize) bs).length
+      · simp only [h2, if_true, Res.bind_ok]
+        rw [(hd (a + (dOff + i * d.ssize)) (a' + (dOff + i * d.ssize)) _ (mod_congr_add h _)).1, ih (i + 1)]
+      · simp only [h2, if_false, Res.bind_fault]
+    · simp only [h1, if_false, Res.bind_fault]
+
+theorem vec_addr (d : Dict) (hd : AddrIndep d) (hp : Pow2 d.align) (l : LenTy) (hl : l.Law) : AddrIndep (vecD d l) := by
+  intro a a' bs h
+  simp only [vecD] at h ⊢
+  rw [readU_addr l a a' bs (mod_congr_of_dvd h (Pow2.max_mod_left hl.align_pow2 hp))]
+  simp only [Slice.len]
+  simp only [vecElems_addr d hd _ a a' bs (mod_congr_of_dvd h (Pow2.max_mod_right hl.align_pow2 hp))]
+  exact ⟨trivial, trivial⟩
+
+theorem str_addr (l : LenTy) : AddrIndep (strD l) := by
+  intro a a' bs h
+  simp only [strD] at h ⊢
+  rw [readU_addr l a a' bs h]
+  exact ⟨rfl, rfl⟩
+
 end FV
